@@ -40,7 +40,8 @@ Matches(ev) ==
 Reset ==
   /\ pools' = [h \in Hashes |-> NoPool] /\ nodes' = [p \in Peers |-> "none"]
   /\ blocked' = {} /\ blHashes' = {} /\ initialHeight' = 0 /\ storeFrom' = 0 /\ head' = 0 /\ reqs' = {}
-  /\ last' = [act |-> "init", arg |-> None, ret |-> None]
+  /\ waiting' = {}
+  /\ last' = [act |-> "init", arg |-> None, ret |-> None, woke |-> {}]
   /\ discovered' = {} /\ confirmed' = {} /\ viol' = {}
 
 TraceNext ==
